@@ -7,6 +7,7 @@ from ..astutil import (src, flat_guards, calls_in, call_name, kwarg, const_value
                        iter_own_nodes, ancestors, is_within)
 from ..cfg import cfg_of, Prov
 from .. import variants as V
+from .. import kernel
 
 PROPERTY = "C13"
 TITLE = "Saved programs replay faithfully"
@@ -255,6 +256,23 @@ def r3_default_pickling(repo):
     return obs
 
 
+REPLAYED = ["src.transformations.type_erasure.TypeErasure", "src.transformations.type_overwriting.TypeOverwriting",
+            "src.translators.java.JavaTranslator", "src.translators.kotlin.KotlinTranslator",
+            "src.translators.groovy.GroovyTranslator", "src.translators.scala.ScalaTranslator"]
+
+
+def r5_process_state(repo):
+    """A replay happens in a fresh process; the original run did not.  The two agree only if what the mutations and the
+    translators compute does not depend on what the process did before."""
+    from ..irwrites import closure_effects
+    obs = []
+    for q in REPLAYED:
+        cls = repo.cls(q)
+        E, fns, _effs = closure_effects(repo, cls)
+        obs += kernel.process_state(repo, "C13-R5", cls.name, E, fns)
+    return obs
+
+
 def r4_hash(repo):
     obs = []
     for c in sorted(_ir_classes(repo), key=lambda c: c.qualname):
@@ -309,6 +327,8 @@ def rules():
         RuleSpec("C13-R2", "text and .bin written from one object; replay loads the dump", 9, r2_same_object),
         RuleSpec("C13-R3", "default pickling for every IR class, no unpicklable state", 120, r3_wrapped),
         RuleSpec("C13-R4", "__hash__/__eq__ survive a round trip (no identity)", 8, r4_hash),
+        RuleSpec("C13-R5", "no state survives in function defaults or class bodies (mutations, translators)", 12,
+                 r5_process_state),
     ]
 
 
